@@ -58,22 +58,39 @@ Fixpoint upd {A} (i : nat) (f : A -> A) (l : list A) : list A :=
 Definition bump (r : sinfo) : sinfo :=
   mkSI (si_closer r) (si_count r + 1) (si_wrapped r) (si_origClosed r) (si_goDone r).
 
+(* The wrapped (original) stream has TWO closing sites, both under originalLock and both
+   guarded by the originalClosed flag:
+
+   compressedBodyStream.closeOriginalForDiscard — called from compressedBodyStream.Close, i.e.
+   whenever the response drops the wrapper (closeBodyStream after a write, CloseBodyStream,
+   Reset, SetBody, ...), possibly while the compressor goroutine is still running:
+     if originalClosed { return }; if not an io.Closer { return }; originalClosed = true; Close() *)
+Definition closeOriginalForDiscard (r : sinfo) : sinfo :=
+  if si_origClosed r then r
+  else if si_closer r then mkSI true (si_count r + 1) (si_wrapped r) true (si_goDone r)
+  else r.
+
+(* compressedBodyStream.closeOriginal — run by the compressor goroutine (compressedBodyStream.write)
+   when compress(...) has returned, whether or not the wrapper is still attached:
+     if !originalClosed { if io.Closer { Close() }; originalClosed = true }
+   (followed by CloseWithError for a ReadCloserWithError, which is not a Close() call) *)
+Definition closeOriginal (r : sinfo) : sinfo :=
+  if si_origClosed r then r
+  else mkSI (si_closer r) (if si_closer r then si_count r + 1 else si_count r) (si_wrapped r) true (si_goDone r).
+
 (* what closeBodyStream does to the attached stream's record *)
 Definition close_attached (r : sinfo) : sinfo :=
   if si_wrapped r then
-    (* compressedBodyStream.Close -> closeOriginalForDiscard *)
-    if si_origClosed r then r
-    else if si_closer r then
-      mkSI true (si_count r + 1) true true (si_goDone r)
-    else r
+    (* closeBodyStreamReader(compressedBodyStream) -> compressedBodyStream.Close -> closeOriginalForDiscard *)
+    closeOriginalForDiscard r
   else
     (* closeBodyStreamReader / Request.closeBodyStream: Close() iff io.Closer *)
     if si_closer r then bump r else r.
 
-(* the goroutine: closeOriginal *)
+(* the goroutine ends: closeOriginal, then close(s.done) *)
 Definition go_done (r : sinfo) : sinfo :=
-  if si_origClosed r then mkSI (si_closer r) (si_count r) true true true
-  else mkSI (si_closer r) (if si_closer r then si_count r + 1 else si_count r) true true true.
+  let r' := closeOriginal r in
+  mkSI (si_closer r') (si_count r') (si_wrapped r') (si_origClosed r') true.
 
 Definition closeBodyStream (st : lstate) : lstate :=
   match ls_att st with
